@@ -229,4 +229,35 @@ example : npFloat "1_0" = none ∧ pyFloat "1e400" = none ∧ pyFloat "1e" = non
 example : loadDispatch true "dat" none = .useAscii ∧ loadDispatch true "xml" (some true) = .notImplemented ∧
     loadDispatch true "txt" (some true) = .useLoader ∧ loadDispatch false "dat" none = .fileNotFound := by decide
 
+/-! ### the option handling of `load_gridded_forecast` as one decision table -/
+
+/-- the reserved extensions -/
+def reserved (ext : String) : Prop := ext = "xml" ∨ ext = "h5" ∨ ext = "bin"
+instance (ext : String) : Decidable (reserved ext) := by unfold reserved; infer_instance
+
+theorem contains4 (ext : String) : (["dat", "xml", "h5", "bin"].contains ext) = true ↔ ext = "dat" ∨ reserved ext := by
+  simp [reserved]
+
+theorem contains3 (ext : String) : (["xml", "h5", "bin"].contains ext) = true ↔ reserved ext := by
+  simp [reserved]
+
+/-- **`load_gridded_forecast` decides every call**: the outcome as a function of (file exists, extension, loader kind), one
+    line per case of the decision table — the five cases are exhaustive and mutually exclusive -/
+theorem dispatch_table (e : Bool) (ext : String) (l : Option Bool) :
+    loadDispatch e ext l =
+      if e = false then .fileNotFound
+      else if l = some false then .attributeError
+      else if reserved ext then .notImplemented
+      else if l = some true then .useLoader
+      else if ext = "dat" then .useAscii else .attributeError := by
+  unfold loadDispatch
+  have h4 := contains4 ext
+  have h3 := contains3 ext
+  rcases e with _ | _ <;> rcases l with _ | (_ | _) <;> by_cases hr : reserved ext <;> by_cases hd : ext = "dat" <;>
+    simp_all
+
+example : loadDispatch true "txt" none = .attributeError ∧ loadDispatch true "xml" (some true) = .notImplemented ∧
+    loadDispatch false "dat" none = .fileNotFound ∧ loadDispatch true "dat" none = .useAscii ∧
+    loadDispatch true "forecast" (some true) = .useLoader := by decide
+
 end ForecastFile.Text
